@@ -406,9 +406,19 @@ MODS = [
 ]
 
 
-def canon_uri(rng, i):
+def canon_uri(rng, i, used=None):
+    """canonical URI of template i; with `used` (a set) some templates share a base name (h.html, k.html) in different
+    directories, so that the same relative string means different templates depending on who writes it"""
     depth = rng.choice([0, 0, 1, 1, 2, 3])
-    return "/" + "".join(rng.choice(DIRPOOL) + "/" for _ in range(depth)) + "t%d.html" % i
+    d = "/" + "".join(rng.choice(DIRPOOL) + "/" for _ in range(depth))
+    u = d + "t%d.html" % i
+    if used is not None:
+        if i > 0 and rng.random() < 0.35:
+            v = d + rng.choice(["h.html", "k.html"])
+            if v not in used:
+                u = v
+        used.add(u)
+    return u
 
 
 def ref_uri(rng, owner, target, spice=True, avoid_dotdot=False):
@@ -440,7 +450,8 @@ class Gen:
         rng = self.rng
         n = rng.randint(2, 8)
         self.n = n
-        self.uris = [canon_uri(rng, i) for i in range(n)]
+        used = set()
+        self.uris = [canon_uri(rng, i, used) for i in range(n)]
         self.backing = rng.choice(["put", "put", "files", "files", "mixed"])
         self.base = {}
         self.inherit_targets = set()
@@ -927,7 +938,8 @@ class Tree:
     def __init__(self, rng, n=None, backing=None, pbase=0.2):
         self.rng = rng
         self.n = n or rng.randint(2, 8)
-        self.uris = [canon_uri(rng, i) for i in range(self.n)]
+        used = set()
+        self.uris = [canon_uri(rng, i, used) for i in range(self.n)]
         self.backing = backing or rng.choice(["put", "files", "mixed"])
         self.ndirs = rng.randint(1, 3)
         self.where = [(self.backing if self.backing != "mixed" else rng.choice(["put", "files"]), rng.randrange(self.ndirs))
@@ -1617,8 +1629,98 @@ def oracle_adversarial(ctx, sb):
                        "oracle.adversarial")
 
 
+# ---- O6: the same relative string written in templates of different directories ------------------------------
+
+def oracle_same_relative(ctx, sb):
+    """>= 2 templates in different directories, all reached in ONE render (include / namespace body() / inheritance),
+    each calling local.get_namespace / get_template / include_file (or using a tag) with the SAME relative string;
+    same-named targets in every directory render distinguishable text.  Demanded: each caller reaches the target that
+    the string denotes relative to the template it is written in."""
+    st = ctx.stream("oracle.same_relative", "oracle")
+    rng = ctx.rng
+    n = 60 if ctx.quick else 1200
+    for _ in range(n):
+        k = rng.randint(2, 4)
+        shape = rng.choice(["beside", "shared"])
+        backing = "files" if shape == "shared" else rng.choice(["put", "files", "mixed"])
+        tops = rng.sample(["d1", "d2", "d3", "d4/e", "f/g"], k)
+        if shape == "beside":
+            rel = rng.choice(["helper.html", "sub/helper.html"])
+            cdirs = ["/" + t for t in tops]
+        else:
+            rel = "../shared/helper.html"
+            cdirs = ["/%s/x" % t for t in tops]
+        api = rng.choice(["get_namespace", "get_namespace", "get_template", "include_file", "include-tag", "namespace-tag"])
+        reach = rng.choice(["include", "namespace-body", "inherit", "mixed"])
+        tpls, want_parts = [], []
+        callers = ["%s/c%d.html" % (d, i) for i, d in enumerate(cdirs)]
+        for i, (d, cu) in enumerate(zip(cdirs, callers)):
+            target = posixpath.normpath(posixpath.join(d, rel))
+            tpls.append((target, T(body=[("t", "[h%d]" % i)])))
+            nss = []
+            if api == "get_namespace":
+                use = [("an", "local", rel, "body")]
+            elif api == "get_template":
+                use = [("t", "${local.get_template('%s').render()}" % rel)]
+            elif api == "include_file":
+                use = [("ai", "local", rel, [])]
+            elif api == "include-tag":
+                use = [("i", rel, [])]
+            else:
+                nss = [NS("hn", ("f", rel))]
+                use = [("c", ("ns", "hn"), "body")]
+            tpls.append((cu, dict(T([], None, nss, [], [("t", "<c%d:" % i)] + use + [("t", ">")]), _i=i)))
+        order = list(range(k))
+        rng.shuffle(order)
+        how = reach
+        main_nss, main_body = [], []
+        cd = dict(tpls)
+        if how == "inherit":
+            # main inherits caller order[0], which inherits order[1], ...: the base-most body runs first
+            chain = [callers[i] for i in order]
+            for a_, b_ in zip(chain, chain[1:]):
+                cd[a_]["inherit"] = b_
+            for cu in chain:
+                cd[cu]["body"].append(("c", "next", "body"))
+            main = T([], chain[0], [], [], [("t", "m")])
+            want = ""
+            for i in order:          # outermost text belongs to the base-most = last of the chain
+                pass
+            want = "m"
+            for i in order:
+                want = "<c%d:[h%d]>" % (i, i) + want
+        else:
+            want = ""
+            for j, i in enumerate(order):
+                w = how if how != "mixed" else rng.choice(["include", "namespace-body"])
+                if w == "include":
+                    main_body.append(("i", callers[i], []))
+                else:
+                    main_nss.append(NS("m%d" % j, ("f", callers[i])))
+                    main_body.append(("c", ("ns", "m%d" % j), "body"))
+                want += "<c%d:[h%d]>" % (i, i)
+            main = T([], None, main_nss, [], main_body)
+        for t in cd.values():
+            t.pop("_i", None)
+        tpls = [("/main.html", main)] + list(cd.items())
+        c = put_or_files(rng, tpls, backing)
+        c["entry"] = "/main.html"
+        materialise(c, sb)
+        try:
+            status, out = run_plain(c)
+        finally:
+            release(c)
+        st["cases"] += 1
+        ctx.branch("oracle:same-relative:%s:%s:%s" % (shape, api, reach))
+        if (status, out) == ("ok", want):
+            continue
+        report(ctx, "same-relative-uri:%s:%s" % (api, status),
+               {"input": rel, "api": api, "reached_by": reach, "callers": callers, "repro": strip_case(c), "want": want},
+               "got %s %r, the property demands %r (every caller writes %r)" % (status, out, want, rel), "oracle.same_relative")
+
+
 def oracle(ctx, sb):
-    for fam in (oracle_adversarial, oracle_uri_tree, oracle_unresolvable, oracle_precedence, oracle_include):
+    for fam in (oracle_adversarial, oracle_same_relative, oracle_uri_tree, oracle_unresolvable, oracle_precedence, oracle_include):
         try:
             fam(ctx, sb)
         except Exception:
